@@ -158,3 +158,14 @@ Proof.
   unfold c_unexp. assert (He : tis e pit_Error = true) by (unfold tis; rewrite Ht; reflexivity).
   rewrite He. unfold c_error_at. apply N.leb_le in Hpos. rewrite Hpos. eexists. reflexivity.
 Qed.
+
+(* an unknown command {foo $x}: the parser reads `foo` as a print of the global foo; the token that
+   follows the expression and is neither `}` nor `|` is the one reported *)
+Theorem print_trailing_token_reported inlen pe lf f pos e dirs s tok s1 :
+  c_next s = COk tok s1 -> tis tok pit_RightDelim = false -> tis tok pit_Pipe = false -> t_pos tok <= inlen ->
+  exists cls, cmd_print_loop inlen pe lf (S f) pos e dirs s = CErr tok cls s1.
+Proof.
+  intros Hn H1 H2 Hp. cbn [cmd_print_loop]. rewrite Hn. cbn [cbind]. rewrite H1, H2.
+  destruct (unexpected_reports_its_token inlen node tok x_print s1 _ eq_refl) as [H _].
+  exact (H Hp).
+Qed.
